@@ -188,7 +188,7 @@ func (fa *FuncAn) returnsOf() [][]string {
 	for _, b := range fa.Fn.Blocks {
 		if ret, ok := lastInstr(b).(*ssa.Return); ok {
 			var rs []string
-			for _, r := range ret.Results {
+			for _, r := range RetResults(ret) {
 				rs = append(rs, fa.R.R(r))
 			}
 			out = append(out, rs)
